@@ -48,6 +48,8 @@ func concCase(c *harness.Case, forProp string) concCfg {
 			cfg.uncertainPct = 8
 			cfg.faultPct = 20
 			cfg.readers = 1
+			// and clients that have given up: their request context is already cancelled when the request is made
+			cfg.deadCtxPct = 6
 		}
 	}
 	return cfg
